@@ -569,4 +569,54 @@ theorem idx_offset_wrap_witness :
     Lsm.lookup (Lsm.reload (Lsm.saveAll (Lsm.step ⟨60, 21⟩ Lsm.State.init (.add 77 0 (2 ^ 30 + 5) 39)).1)) 77 =
       some ⟨77, 0, 5, 39⟩ := by decide +kernel
 
+/-! ### the driver's tabulated steps -/
+
+/-- **tabulated_steps_are_the_model.** The correspondence driver stores the index manager's
+bucket tables after each operation (`Container.stepT` / `istepT`: `tabMem`, `tabDisk`) so that
+histories of thousands of operations on one bucket stay linear; for EVERY state and operation
+these are exactly `Container.step` / `istep` — the driver runs the model the theorems above are
+about, nothing else. -/
+theorem tabulated_steps_are_the_model (P : Archive.Params) (cfg : Lsm.Cfg) :
+    (∀ s, tabMem s = s) ∧ (∀ s, tabDisk s = s) ∧
+      (∀ s op, stepT P cfg s op = step P cfg s op) ∧
+      (∀ s op, istepT P cfg s op = istep P cfg s op) := by
+  have hm : ∀ s, tabMem s = s := by
+    intro s
+    cases s with
+    | mk mem disk =>
+      unfold tabMem
+      simp only [Lsm.State.mk.injEq, and_true]
+      funext b
+      split
+      · simp
+      · rfl
+  have hd : ∀ s, tabDisk s = s := by
+    intro s
+    cases s with
+    | mk mem disk =>
+      unfold tabDisk
+      simp only [Lsm.State.mk.injEq, true_and]
+      funext b
+      split
+      · simp
+      · rfl
+  refine ⟨hm, hd, ?_, ?_⟩
+  · intro s op
+    cases op <;> simp only [stepT, hm, hd]
+  · intro s op
+    cases op <;> simp only [istepT, hm, hd]
+
+/-- test (kernel-evaluated), the path the fill cases of the run drive through the real container:
+an update section of ONE page of TWO entries, three keys of bucket 1 (1, 16, 256) added with
+`save_all` after each as `DynamicContainer::write` does; the third `add` finds the section full
+(implicit flush of the bucket, then retry).  After a restart all three — in particular the one
+that overflowed, which is the only pending entry — are found. -/
+theorem update_section_overflow_entry_survives_reopen_witness :
+    let cfg : Lsm.Cfg := ⟨1, 2⟩
+    let w := fun (s : Lsm.State) (k : Nat) => Lsm.saveAll (Lsm.step cfg s (.add k 0 (39 * k) 39)).1
+    let s := Lsm.reload (w (w (w Lsm.State.init 1) 16) 256)
+    ((s.mem 1).map fun b => (b.sorted.length, b.log.length)) = some (2, 1) ∧
+      Lsm.lookup s 1 = some ⟨1, 0, 39, 39⟩ ∧ Lsm.lookup s 16 = some ⟨16, 0, 624, 39⟩ ∧
+      Lsm.lookup s 256 = some ⟨256, 0, 9984, 39⟩ := by decide +kernel
+
 end Cascette.Props.C04
